@@ -514,6 +514,71 @@ def rule_r4(chk, p, t):
                     r.violation(cons, f"iter:{unparse(it)[:60]}", f"`{what}` is stacked over `{unparse(it)[:70]}`: the rows of this quantity no longer correspond to the rows of the others", m.loc(n))
 
 
+def rule_r5(chk, p, t):
+    r = chk.rule(
+        "C16.R5",
+        "one stacking order per update: the observation list is never re-ordered on the way",
+        6,
+        "the stacked quantities of one measurement update - measured vector, predicted vector, angular flags, noise "
+        "blocks, gain columns - are built in several methods (update, forecast, calculateMeasurementMatrix, ...) from "
+        "the observation list each of them is handed; they pair up row by row only if every method iterates that list "
+        "in the order it was given.  No method on the path re-binds its observation-list parameter (sorted / reversed / "
+        "filtered / shuffled copy), sorts it in place, or passes a re-ordered list on: a stable internal order in one "
+        "method and the caller's order in another pairs measured rows with other sensors' predicted rows whenever the "
+        "caller's order is not the internal one",
+        "the numerical invariance itself",
+    )
+    REORDER = {"sorted", "reversed", "shuffle", "sort", "reverse", "permutation", "sample"}
+    classes = []
+    for q in (UKF, GPF, "resonaate.estimation.sequential_filter.SequentialFilter", "resonaate.estimation.kalman.kalman_filter.KalmanFilter", "resonaate.estimation.adaptive.adaptive_filter.AdaptiveFilter"):
+        try:
+            c = p.cls(q)
+        except AnchorError:
+            continue
+        classes += [c] + [x for x in p.subclasses(c) if x not in classes]
+    seen = set()
+    for c in classes:
+        for m in c.methods.values():
+            if m.qualname in seen:
+                continue
+            seen.add(m.qualname)
+            prm = next((q for q in m.params if q in ("observations", "obs_list", "successful_obs") or ("Observation]" in (unparse(m.param_annotation(q)) if m.param_annotation(q) is not None else ""))), None)
+            if prm is None:
+                continue
+
+            def one(m=m, prm=prm):
+                bad = []
+                unsure = []
+                for n in walk_no_nested(m.node):
+                    if isinstance(n, ast.Assign) and any(isinstance(tg, ast.Name) and tg.id == prm for tg in n.targets):
+                        v = n.value
+                        copy_only = isinstance(v, ast.Call) and call_name(v) in ("list", "tuple") and len(v.args) == 1 and isinstance(v.args[0], ast.Name) and v.args[0].id == prm
+                        reorders = any(isinstance(c_, ast.Call) and call_name(c_) in REORDER for c_ in ast.walk(v)) or any(isinstance(c_, ast.comprehension) and c_.ifs for c_ in ast.walk(v))
+                        if reorders:
+                            bad.append(f"`{prm}` is re-bound to `{unparse(v)[:60]}` (line {n.lineno})")
+                        elif not copy_only:
+                            unsure.append(f"`{prm}` is re-bound to `{unparse(v)[:60]}` (line {n.lineno})")
+                    if isinstance(n, ast.Call):
+                        nm = call_name(n)
+                        if nm in REORDER and any(isinstance(a, ast.Name) and a.id == prm for a in list(n.args) + ([n.func.value] if isinstance(n.func, ast.Attribute) else [])):
+                            bad.append(f"`{unparse(n)[:60]}` re-orders the observation list")
+                    if isinstance(n, ast.Subscript) and isinstance(n.value, ast.Name) and n.value.id == prm and isinstance(n.slice, ast.Slice) and n.slice.step is not None:
+                        bad.append(f"`{unparse(n)}` re-orders the observation list")
+                if bad:
+                    r.violation(
+                        m.qualname,
+                        "observation-order:" + ";".join(sorted(set(b[:40] for b in bad))),
+                        f"{m.cls.name}.{m.name}: " + "; ".join(sorted(set(bad))) + " - the stacks this method builds are in another order than those its caller / callees build from the list as given (measured rows, predicted rows and angular flags no longer pair up)",
+                        m.loc(),
+                    )
+                elif unsure:
+                    r.undecided(m.qualname, "; ".join(unsure), m.loc())
+                else:
+                    r.ok(m.qualname, f"`{prm}` is iterated and passed on as given", m.loc())
+
+            r.guard(m.qualname, one)
+
+
 def run(chk, p, t):
     chk.explanation = (
         "Static decision of structural necessary conditions of C16: (R1) measurement vectors never meet in a raw "
@@ -524,7 +589,7 @@ def run(chk, p, t):
         "observation list in order. NOT decided: numerical invariance to turns and permutations."
     )
     chk.assumptions += ["numpy.remainder takes the sign of the divisor, numpy.fmod of the dividend; `%` on arrays is a true modulo"]
-    for fn in (rule_r1, rule_r2, rule_r3, rule_r4):
+    for fn in (rule_r1, rule_r2, rule_r3, rule_r4, rule_r5):
         rid = "C16.R" + fn.__name__[-1]
         if not chk.wants(rid):
             continue
